@@ -320,7 +320,11 @@ def run(ctx):
                               "cred_hex": forged.hex(), "kind": "drain-forgery"})
     # the statement holds whatever other clients do at the same time: genuine decodes race with altered copies
     import conc
-    probs, rep, total = conc.forgery_race(ctx, exe, seconds=20.0 if ctx.thorough else 5.0, nthreads=2)
+    probs, rep, total = conc.forgery_race(ctx, exe, seconds=15.0 if ctx.thorough else 3.5, nthreads=2)
+    if not probs and not rep.strip():
+        # ... and on a daemon with more workers than cores are busy: more requests in progress at any instant
+        probs, rep, t2 = conc.forgery_race(ctx, exe, seconds=15.0 if ctx.thorough else 6.0, nthreads=8, label="forge8")
+        total += t2
     dist["concurrent-forgery-attempts"] = total
     ctx.count(("forgery-race", total))
     ctx.log("forgery race: %d decodes, %d problems" % (total, len(probs)))
